@@ -1,4 +1,6 @@
 //! `vh` - conformance harness binding the TLA+ specification in /verif/spec to the jsonrpsee tree in /repo.
 #![allow(clippy::all)]
 pub mod common;
+pub mod c13_registry;
+pub mod c16_params_seq;
 pub mod c20_params_builder;
